@@ -542,7 +542,7 @@ class IRWithUses(ABC):
 _VALUE_NAME_PATTERN = re.compile(r"([A-Za-z_$.-][\w$.-]*)", re.ASCII)
 """Pattern to check if a name is valid for an SSAValue or Block."""
 
-_VALUE_NAME_SUFFIX_PATTERN = re.compile(r"(_\d+)$")
+_VALUE_NAME_SUFFIX_PATTERN = re.compile(r"(_\d+)+$")
 """This pattern is used to remove the suffix from an SSAValue or Block name."""
 
 
@@ -588,8 +588,10 @@ class IRWithName(ABC):
             )
 
         if match := _VALUE_NAME_SUFFIX_PATTERN.search(name):
-            # Remove `_` followed by numbers at the end of the name
-            return name[: match.start()]
+            # Remove all `_` followed by numbers at the end of the name, as the printer
+            # adds such suffixes to make names unique.
+            # A name that only consists of such suffixes is not used.
+            return name[: match.start()] or None
 
         return name
 
